@@ -38,7 +38,7 @@ THEOREM_NOTES = {
                      "(premises checked by the oracle on the implementation's arrays), not by a model of geomspace / the root searches",
     "tail probability": "not proved (numerical root search); monitored: mass(h/2, r)/mass(h/2, inf) within 1e-6 of the target",
 }
-LEVEL_TEXT = ("Proof: 14 Coq theorems (closed under the global context) state that create_from_fixed_nb_of_points, CTMCUniformGrid (linspace as its mathematical sequence) and CTMCCredit return, "
+LEVEL_TEXT = ("Proof: 16 Coq theorems (closed under the global context) state that create_from_fixed_nb_of_points, CTMCUniformGrid (linspace as its mathematical sequence) and CTMCCredit return, "
               "for every argument they accept, strictly increasing axes with 0 at the origin index and -h/+h as neighbours and end points "
               "at the reported truncations; that any assembly left++[0]++right with pivot len(left) does; and that refine - modelled as "
               "the np.insert loop, proved equal to the interleaving - keeps every old state at 2^n times its index, inserts exactly one "
@@ -332,6 +332,7 @@ def correspond(res):
     # ---- 4. oracle stream: every constructor on step and real models ------------------------
     _oracle_constructors(res, rng, 1 if not thorough else 6, viol)
     _tail_probabilities(res, rng, viol, thorough)
+    _probstep_massless_gaps(res, viol)
 
     groups.append(("uniform", "Q * Q * Q * option (list Q * nat)",
                    "fun c => match c with (l, h, r, e) => match uniform_axis l h r, e with "
@@ -365,7 +366,7 @@ def _check_grid_and_refine(res, viol, grid, ctor, args, n_refine=2, exact_mid=Tr
             return
         why = nesting_reason(before, grid, exact_mid=exact_mid) or grid_reason(grid)
         if why:
-            viol(f"{ctor}: refine breaks nesting/admissibility: " + why[:60], kind="ctor", ctor=ctor, args=args, n=n, reason=why)
+            viol(f"{ctor}: refine breaks nesting/admissibility: " + why[:60], kind="ctor", ctor=ctor, args=args, n=n, reason=why, **extra)
             return
 
 
@@ -390,6 +391,45 @@ def _tail_monitor(res, viol, model, grid, ctor, args, target=0.99999, finding=No
     if not ok:
         viol(f"{ctor}: end points do not carry the promised tail probability", kind="ctor", ctor=ctor, args=args,
              left=float(pl), right=float(pr), target=target, **({"finding": finding} if finding else {}))
+
+
+def _probstep_monitor(res, viol, model, grid, pstep, args):
+    """per-gap probability of a probability-step grid (level 0): every interior gap beyond [0, h] carries the requested
+    probability p of the jump measure (two root searches of p/2 each, xtol 1e-10); the last two gaps of a side are built
+    by extrapolation when the tail is exhausted and are exempt.  Monitor with tolerance 1e-6."""
+    nu = model.levy_triplet.nu
+    ax = [float(x) for x in grid.axes[0]]
+    o = origin_indices(grid)[0]
+    lam = float(grid.intensity_of_jumps)
+    off = []
+    with np.errstate(all="ignore"):
+        for k in list(range(0, o - 1)) + list(range(o + 1, len(ax) - 1)):
+            pk = float(nu.integrate(ax[k], ax[k + 1])) / lam
+            exempt = k <= 1 or k >= len(ax) - 3
+            res.bump("probstep_gap", "exempt end gap" if exempt else ("p" if abs(pk - pstep) <= 1e-6 else "off"))
+            if not exempt and abs(pk - pstep) > 1e-6:
+                off.append((k, pk))
+    if off:
+        viol("CTMCGridProbabilityStep: an interior gap does not carry the requested step probability", kind="ctor",
+             ctor="CTMCGridProbabilityStep", args=args, gaps=[[k, pk] for k, pk in off[:5]], requested=pstep)
+
+
+def _probstep_massless_gaps(res, viol):
+    """F-C13-6: probability-step grids whose end gaps have float mass 0 (narrow jump law, large h): refine must not duplicate states"""
+    from rpylib.grid.spatial import CTMCGridProbabilityStep
+    from stepmeasure import build_model
+    for kw, h, pstep in ((dict(sigma=0.1, mu_j=0.01, sigma_j=0.0626, intensity=7.6), 0.3, 0.01),
+                         (dict(sigma=0.1, mu_j=0.0, sigma_j=0.05, intensity=3.0), 0.25, 0.02)):
+        spec = {"family": "MERTON", "kwargs": kw}
+        args = {"model": spec, "h": h, "p": pstep}
+        try:
+            with warnings.catch_warnings():
+                warnings.simplefilter("ignore")
+                g = CTMCGridProbabilityStep(h=h, model=build_model(spec), minimum_probability_step=pstep)
+                res.count(("probstep-massless", h, pstep), kind="CTMCGridProbabilityStep (massless end gaps)")
+                _check_grid_and_refine(res, viol, g, "CTMCGridProbabilityStep", args, n_refine=2, exact_mid=False, finding="F-C13-6")
+        except Exception as e:  # noqa
+            note_exception(res, "probstep_outcome", e, "CTMCGridProbabilityStep", args)
 
 
 def _tail_probabilities(res, rng, viol, thorough):
@@ -526,6 +566,7 @@ def _oracle_constructors(res, rng, scale, viol):
                     try:
                         g = CTMCGridProbabilityStep(h=h, model=model, minimum_probability_step=pstep)
                         res.count(("probstep", fam, h), kind="CTMCGridProbabilityStep")
+                        _probstep_monitor(res, viol, model, g, pstep, {"model": spec, "h": h, "p": pstep})
                         _check_grid_and_refine(res, viol, g, "CTMCGridProbabilityStep", {"model": spec, "h": h, "p": pstep},
                                                n_refine=2 if h == 0.05 else 1, exact_mid=False)
                     except Exception as e:  # noqa
